@@ -611,14 +611,13 @@ impl CoseKeyBuilder {
         pub fn base_iv(self, base_iv: Vec<u8>) -> Self { let mut self_ = self;
             self_.0.base_iv = base_iv;
             self_
-        }
-    
-
-    /// Constructor for an elliptic curve public key specified by `x` and `y` coordinates.
-    «pub open spec fn key_other_fields_default(k: CoseKey) -> bool {
+        }«pub open spec fn key_other_fields_default(k: CoseKey) -> bool {
         k.key_id@.len() == 0 && k.alg is None && k.key_ops@ == Set::<KeyOperation>::empty() && k.base_iv@.len() == 0
     }
     pub open spec fn is_int_value(v: Value, n: int) -> bool { v matches Value::Integer(i) && int_val(i) == n }»
+    
+
+    /// Constructor for an elliptic curve public key specified by `x` and `y` coordinates.
     pub fn new_ec2_pub_key(curve: iana::EllipticCurve, x: Vec<u8>, y: Vec<u8>) ->« (r:» Self«)
         ensures r.inner().kty == KeyType::Assigned(iana::KeyType::EC2), Self::key_other_fields_default(r.inner()),
             r.inner().params@.len() == 3,
